@@ -7,6 +7,11 @@ ALL = [f"C{i:02d}" for i in range(1, 21)]
 HOOK_COMMITS = subprocess.run(["git", "-C", "/repo", "log", "--format=%h %s", "--grep", "^verif hook"], capture_output=True, text=True).stdout.strip().splitlines()
 
 CHECKS = {
+ "C09": dict(
+   category="exploration", design="DESIGN.md §4 C09",
+   technique="proptest-generated wrapped stacks and Collect-API workloads; differential (wrapped vs wrapper-stripped stack, per-leaf logs with normalised ids) plus exactly-once / inner-before-outer / veto invariants on the stripped run",
+   text="For a generated tree of 1-5 recording layers with nested pass-through wrappers (Box, Some, one-element Vec, reload, Identity; None and [] as siblings; Box/Arc collector; Arc/reload/Some around filters) over a Registry or an id-changing base collector, the same workload over every Collect method (callsite registration, enabled, new_span, record, follows_from, event_enabled, event, enter, exit, clone_span/id change, try_close, on_register_dispatch) is run against the wrapped and the stripped stack on fresh threads; every leaf's log and the base collector's log must be identical. On unfiltered stripped stacks each operation must reach every leaf exactly once (zero times after a veto), inner leaves and the collector before outer ones; each callsite and the dispatcher registration exactly once.",
+   note="Multi-element Vecs are C07/C08's subject. The order clause is not asserted for callsite/dispatcher registration (Layered asks the outer layer first by design). Found and fixed F4, F4b, F5, F20 (and F19 via C07)."),
  "C08": dict(
    category="exploration", design="DESIGN.md §4 C08",
    technique="generated and enumerated (depth<=2 over a 10-leaf alphabet) filter expressions and stack shapes; metamorphic oracle: cached path (summary) vs the implementation's own uncached dynamic decision on 60 static metadata x 6 span contexts",
